@@ -193,7 +193,7 @@ pub uninterp spec fn spec_range_match(t: Seq<char>) -> bool;
 #[verifier::external_body]
 pub fn vx_range_is_match(t: &str) -> (r: bool) ensures r == spec_range_match(t@) { unimplemented!() }
 #[verifier::external_body]
-pub fn vx_range_caps(t: &str) -> (r: VxRangeCaps) requires spec_range_match(t@) { unimplemented!() }
+pub fn vx_range_captures(t: &str) -> (r: Option<VxRangeCaps>) ensures r.is_some() == spec_range_match(t@) { unimplemented!() }
 pub struct VxParseErr { pub e: i32 }
 pub uninterp spec fn spec_parse_i32(t: Seq<char>) -> Option<int>;
 #[verifier::external_body]
@@ -341,8 +341,8 @@ expand_glob = Fn(S, 'expand_glob',
 RANGE_RW = TYRW + [
     Rw(r'let re;[\s\S]*?let mut idx: usize = 0;', 'let mut idx: usize = 0;', regex=True, rule='R6',
        why='Regex::new(range pattern) and its error path dropped; is_match/captures go through uninterpreted shims'),
-    Rw('re.is_match(token)', 'vx_range_is_match(token)', rule='R6'),
-    Rw('re.captures(token).unwrap()', 'vx_range_caps(token)', rule='R6', why='captures().unwrap() after is_match: shim requires the match'),
+    Rw('re.is_match(token)', 'vx_range_is_match(token)', rule='R6', required=False),
+    Rw('re.captures(token)', 'vx_range_captures(token)', rule='R6', why='Regex::captures through a shim: Some iff the pattern matches (std contract); the .unwrap() stays and is proved'),
     Rw(r'caps\[(\d)\]\.to_string\(\)\.parse::<i32>\(\)', r'vx_parse_i32(&caps.c\1)', regex=True, rule='R6',
        why='capture group text parsed with str::parse::<i32> (Ok iff a decimal in range: std contract, uninterpreted value)'),
     Rw('caps.get(4).is_none()', 'caps.c4.is_none()', rule='R6'),
